@@ -73,7 +73,7 @@ func (h *Heap) Get(name string) Term {
 	case hDerived:
 		return h.base.Get(name) // not cached: base may be shared
 	case hHavoc:
-		if (h.only != nil && !h.only[name]) || vc.immutable(name) {
+		if (h.only != nil && !h.only[name]) || vc.immutable(name) || (h.only == nil && strings.HasPrefix(name, "G|ghost.")) {
 			t = h.base.Get(name)
 			break
 		}
